@@ -28,7 +28,7 @@ META = {
                  "the contract by TLC on all small digraphs; the real functions are run on the same calls (public API and forced "
                  "iteration orders), every call record is validated by TLC against the contract, outcomes are compared with the "
                  "transcription's",
-    "level_text": "Small-scope exhaustive: every digraph with <= 3 nodes (4 nodes: a 1/1024 sample in the quick, 1/64 in the "
+    "level_text": "Small-scope exhaustive: every digraph with <= 3 nodes (4 nodes: a 1/1021 sample in the quick, 1/61 in the "
                   "thorough tier; 5 nodes: a small sample in thorough) x toposort and getcycle/isdag with every start-key subset; "
                   "TLC explores the transcription of _toposort under every iteration order, with the priority numbering as written "
                   "and repaired, and checks it against the contract; the real functions are run on every such call in several "
@@ -200,8 +200,8 @@ def plan_for(ctx):
     off = lambda st: ctx.rng.randrange(st)
     full = [{"n": n, "stride": 1, "offset": 0} for n in (1, 2, 3)]
     if ctx.quick:
-        return full + [{"n": 4, "stride": 1024, "offset": off(1024)}]
-    return full + [{"n": 4, "stride": 64, "offset": off(64)}, {"n": 5, "stride": 2 ** 17, "offset": off(2 ** 17)}]
+        return full + [{"n": 4, "stride": 1021, "offset": off(1021)}]     # prime strides: a power of two would pin the low bits
+    return full + [{"n": 4, "stride": 61, "offset": off(61)}, {"n": 5, "stride": 131071, "offset": off(131071)}]
 
 
 def transcription(ctx, plan):
